@@ -14,12 +14,44 @@ def run(run):
     run.cov["random_programs"] = nr
     n += nr
     n += flow_traces(run, quick)
+    n += reentrant(run)
     run.cov["traces_validated_against_impl"] = n
     run.cov["evaluations"] = n
     run.cov["distinct_nontrivial"] = n
     run.cov["rule"] = "distinct programs (parameter tuples of MachineGen, and seeded random syntax trees of harness/proggen.py evaluated by MachineRand) whose model run terminated; each rendered and executed once"
     run.cov["exhaustive"] = True
     run.assumptions += machine.ASSUMPTIONS
+
+
+# a comprehension that is evaluated again while it is still running (the function it stands in recurses from its
+# source, its value or its condition): every evaluation has loop variables of its own, like the explicit loop
+REENTRANT = [
+    ("def tri(n) do if n == 0 then return []; [x + n for x in tri(n - 1)] + [n] end; tri(3)", "[6, 5, 3]"),
+    ("def walk(t) if is_list(t) then [walk(c) for c in t] else t * 2; walk([1, [2, [3, 4]], 5])", "[2, [4, [6, 8]], 10]"),
+    ("def p(n) if n == 0 then [[]] else [[a] + r for a in [0, 1] for r in p(n - 1)]; p(2)", "[[0, 0], [0, 1], [1, 0], [1, 1]]"),
+    ("def s(n) if n == 0 then <<0>> else <<x + n for x in s(n - 1)>> + <<n>>; s(3)", "<<3, 5, 6>>"),
+    ("def m(n) if n == 0 then <<<0 => 0>>> else <<<k + n => n for k in keys m(n - 1)>>>; m(2)", "<<<3 => 2>>>"),
+    ("def d(n) if n == 0 then [] else [[x, n] for x in [n] if length(d(n - 1)) >= 0]; d(3)", "[[3, 3]]"),
+    ("def tri(n) do if n == 0 then return []; def r = []; for x in tri(n - 1) do append(r, x + n) end; r + [n] end; tri(3)", "[6, 5, 3]"),
+]
+
+
+def reentrant(run):
+    from ckl.interpreter import Interpreter
+    from . import absval
+    n = 0
+    for src, want in REENTRANT:
+        it = Interpreter(True, False)
+        for rep in (1, 2):               # (a second evaluation in the same interpreter)
+            o = absval.outcome(lambda: it.interpret(src, "c04"))
+            w = absval.outcome(lambda: Interpreter(True, False).interpret(want, "c04"))
+            n += 1
+            if o[0] != "val" or w[0] != "val" or not absval.strict_eq(absval.to_py(o[1]), absval.to_py(w[1])):
+                got = absval.to_py(o[1]) if o[0] in ("val", "err") else o[1:]
+                run.violation("reentrant:" + src, f"comprehension-equals-loop: {src!r} should yield {want}, got {o[0]} {got!r}",
+                              {"kind": "reentrant", "src": src, "want": want})
+                break
+    return n
 
 
 EXTRA = [
@@ -58,7 +90,7 @@ def flow_traces(run, quick):
     rng = random.Random(run.seed + 4)
     gen = sorted(set(machine.SOURCES))
     gen = rng.sample(gen, min(len(gen), 1500 if quick else 15000))
-    progs = [(machine.PRELUDE + g, False) for g in gen] + [(t, False) for t in EXTRA] + [(t, True) for t in repo_test_programs()]
+    progs = [(machine.PRELUDE + g, False) for g in gen] + [(t, False) for t in EXTRA] + [(t, False) for t, _ in REENTRANT] + [(t, True) for t in repo_test_programs()]
     events, metas = ft.record(progs)
     stats = ft.validate(run, events, metas, "Flow_Trace: conditionals, loops and function bodies as the real evaluator runs them")
     kinds = {}
@@ -75,6 +107,9 @@ def flow_traces(run, quick):
 
 
 def replay(run, case):
+    if case.get("kind") == "reentrant":
+        reentrant(run)
+        return
     if case.get("kind") == "flowtrace":
         from . import flowtrace as ft
         events, metas = ft.record([(case["src"], True)])
